@@ -123,7 +123,7 @@ Qed.
 
 (* every abstract tree, rendered with the minimal parentheses of the table,
    is read back as itself *)
-Theorem precedence_roundtrip : forall e, printable e = true -> parse (pr (min_paren e)) = Ok [e] [].
+Theorem precedence_roundtrip : forall e, printable e = true -> parse (pr (min_paren e)) = Ok [StExpr e] [].
 Proof.
   intros e Hp. destruct (min_paren_ok (S (esize e)) e ltac:(lia) Hp) as [W D].
   rewrite (roundtrip _ W), D. reflexivity.
